@@ -149,7 +149,12 @@ pub fn path(rng: &mut Rng, loop_vars: &[&str]) -> String {
         9 => format!("{root}[\"b\"]"),
         10 => format!("{root}.b?.c"),
         11 => format!("{root}?.b.c"),
-        12 => format!("{root}.b[\"c\"]"),
+        12 => match rng.below(4) {
+            0 => format!("{root}?[\"b\"]"),
+            1 => format!("{root}.b?[\"c\"]?.b"),
+            2 => format!("{root}.c?[:1]"),
+            _ => format!("{root}.b[\"c\"]"),
+        },
         13 => format!("{root}.c"),
         14 => match rng.below(6) {
             0 => "1".into(),
@@ -284,7 +289,7 @@ pub fn gen_expr(rng: &mut Rng, depth: u32, lv: &[&str]) -> String {
                 if e.starts_with("not ") || e.starts_with("(-") { path(rng, lv) } else { e }
             };
             let (l, r) = (operand(rng), operand(rng));
-            format!("({} {} {})", l, rng.pick(&["+", "-", "*", "==", "!=", "<", ">=", "~", "in"]), r)
+            format!("({} {} {})", l, rng.pick(&["+", "-", "*", "/", "//", "%", "**", "==", "!=", "<", "<=", ">", ">=", "~", "in"]), r)
         }
         8 => format!("{} | {}", path(rng, lv), rng.pick(&["upper", "length", "str", "first", "last", "safe", "keys", "reverse"])),
         9 => format!("{} | default(value={})", path(rng, lv), gen_expr(rng, d, lv)),
